@@ -25,13 +25,13 @@ import (
 	"fmt"
 	"math"
 	"math/rand"
-	"os"
-	"syscall"
-	"testing"
 	"net"
+	"os"
 	"runtime/debug"
 	"strings"
 	"sync"
+	"syscall"
+	"testing"
 	"time"
 
 	"github.com/spf13/viper"
